@@ -41,10 +41,17 @@ func VerifC17Server() {
 	c.serve()
 	nd.Reach("starttls-served")
 	nd.Note("suffix", suffix, insecure, vc.maxRead)
-	nd.Note("out", string(vc.out))
 	out := string(vc.out)
 	okLine := "A OK Begin TLS negotiation now\r\n"
 	i := strings.Index(out, okLine)
+	// (translator validation compares what the IMAP layer wrote; whatever follows the OK
+	// line is written by the TLS layer - natively a handshake alert record, nothing in the
+	// executor's record-layer stub - and is judged by the assertions below, not by the note)
+	if i >= 0 {
+		nd.Note("out", out[:i+len(okLine)])
+	} else {
+		nd.Note("out", out)
+	}
 	nd.Assert(i >= 0, "starttls-accepted")
 	if i < 0 {
 		return
